@@ -269,6 +269,18 @@ func ruleNoMutationThroughAlias(c *Ctx, rid string) {
 			}
 		case *ssa.ChangeType:
 			return fromField(x.X, d+1)
+		case *ssa.Call:
+			// a helper that hands back (a reslice of) one of its slice parameters: LIMIT applied
+			// by mems[offset:][:count]
+			if h := staticCallee(x.Common()); h != nil && h.Blocks != nil && inRepo(h) {
+				for i := range h.Params {
+					if i < len(x.Common().Args) && returnsResliceOf(h, i) {
+						if f, ok := fromField(x.Common().Args[i], d+1); ok {
+							return f, true
+						}
+					}
+				}
+			}
 		}
 		return "", false
 	}
@@ -466,4 +478,40 @@ func storesParamUnchanged(fn *ssa.Function, i int, depth int) bool {
 		}
 	})
 	return found
+}
+
+// returnsResliceOf: some return of h yields its i-th parameter or a reslice of it (through phis).
+func returnsResliceOf(h *ssa.Function, i int) bool {
+	if i >= len(h.Params) {
+		return false
+	}
+	if _, isSlice := h.Params[i].Type().Underlying().(*types.Slice); !isSlice {
+		return false
+	}
+	var derives func(v ssa.Value, d int, seen map[ssa.Value]bool) bool
+	derives = func(v ssa.Value, d int, seen map[ssa.Value]bool) bool {
+		if v == nil || d > 6 || seen[v] {
+			return false
+		}
+		seen[v] = true
+		switch x := v.(type) {
+		case *ssa.Parameter:
+			return x == h.Params[i]
+		case *ssa.Slice:
+			return derives(x.X, d+1, seen)
+		case *ssa.Phi:
+			for _, e := range x.Edges {
+				if derives(e, d+1, seen) {
+					return true
+				}
+			}
+		}
+		return false
+	}
+	for _, r := range returnsOf(h) {
+		if len(r.Results) >= 1 && derives(r.Results[0], 0, map[ssa.Value]bool{}) {
+			return true
+		}
+	}
+	return false
 }
